@@ -339,6 +339,47 @@ func checkFetchRequested(s *sim, op Op, before viewKey) {
 	}
 }
 
+// checkAcceptedVotesKept: a vote message for the voting round that the mirror answered with Accepted
+// has been added; while the node stays in that round every authentic (target, signer) pair of it is
+// in the voting view (a later update built on an older snapshot must not replace it).
+func checkAcceptedVotesKept(s *sim, before viewKey) {
+	if !s.alive || s.fail != nil || before.H != s.vv.Height || before.R != s.vv.Round {
+		return
+	}
+	for i := len(s.sentVotes) - 1; i >= 0 && s.sentVotes[i].Step == s.step; i-- {
+		sv := s.sentVotes[i]
+		if sv.H != s.vv.Height || sv.R != s.vv.Round || len(sv.Results) == 0 {
+			continue
+		}
+		accepted := false
+		for _, r := range sv.Results {
+			if r == tmconsensus.HandleVoteProofsAccepted {
+				accepted = true
+			}
+		}
+		if !accepted {
+			continue
+		}
+		proofs := s.vv.PrevoteProofs
+		if sv.Kind == 1 {
+			proofs = s.vv.PrecommitProofs
+		}
+		for _, target := range sortedKeys(sv.Per) {
+			var bs bitset.BitSet
+			if p, ok := proofs[target]; ok {
+				p.SignatureBitSet(&bs)
+			}
+			for vi := range sv.Per[target] {
+				if !bs.Test(uint(vi)) {
+					s.failf("", "accepted-vote-lost", "the mirror answered Accepted to a vote message (kind %d) for the voting round %d/%d carrying validator %d's signature for target %s, the node is still in that round, but the voting view does not hold that signature", sv.Kind, sv.H, sv.R, vi, hx([]byte(target)))
+					return
+				}
+			}
+		}
+		s.label("accepted-votes-checked")
+	}
+}
+
 func c09Oracle(s *sim, op Op, idx int) {
 	checkFetchRequested(s, op, s.posBeforeOp)
 	for _, r := range s.lastPHRes {
@@ -1040,6 +1081,7 @@ func (s *sim) c11Observe(consumer string, tracks map[viewKey]*viewTrack, v *tmco
 }
 
 func c11Oracle(s *sim, op Op, idx int) {
+	checkAcceptedVotesKept(s, s.posBeforeOp)
 	if s.c11 == nil {
 		s.c11 = &c11State{gs: map[viewKey]*viewTrack{}, sm: map[viewKey]*viewTrack{}, byVersion: map[string]string{}}
 	}
@@ -1316,7 +1358,7 @@ func c11Spec() propSpec {
 		profile: genProfile{
 			w:              map[string]int{"ph": 3, "vote": 8, "round": 8, "sment": 4, "smact": 2, "stall": 4, "read": 4, "conc": 5, "replay": 3, "fetch": 2},
 			phVariants:     []int{phFresh, phFresh, phAltNext, phBadSig},
-			pcpVariants:    []int{pcpExact},
+			pcpVariants:    []int{pcpExact, pcpExact, pcpExtraNil},
 			voteCorr:       []int{vcNone, vcNone, vcFlip},
 			replayVariants: []int{rvHonest, rvBadSig, rvBadSig, rvBelowQuorum, rvExtraNil},
 			minOps:         4, maxOps: 45,
